@@ -21,6 +21,8 @@ Definition utc_timestamp_nanos_format : gt_layout := gt_layout_frac 9.
 Definition timestamp_read (d : bytes) : res ((Z * Z) * Z) :=
   (* time.Parse also accepts a comma before the fractional seconds, FIX does not. *)
   if Nat.ltb 17 (length d) && negb (nth 17 d 0 =? gt_DOT) then Err E_TS_VALUE else
+  (* time.Parse also accepts a sign in front of the fraction digits ("05.+12", "05.-00"), FIX does not. *)
+  if Nat.ltb 18 (length d) && negb (is_digit (nth 18 d 0)) then Err E_TS_VALUE else
   let n := length d in
   if Nat.eqb n 17 then let* t := gt_parse utc_timestamp_seconds_format d in Ok (t, TS_SECONDS)
   else if Nat.eqb n 21 then let* t := gt_parse utc_timestamp_millis_format d in Ok (t, TS_MILLIS)
